@@ -50,12 +50,17 @@ static void client (void *arg) {
 	for (ip = 0;; ip++) {
 		rt_point ("c0");
 		if (ip >= S.nops[t]) break;
-		if (S.prog[t][ip] == 1) {
+		if (S.prog[t][ip] == 3) {
+			/* the thread's waiter destructor runs (thread-local destructors run in no particular order): nsync calls may follow */
+			rt_run_tls_dest_fine ();
+		} else if (S.prog[t][ip] == 1) {
 			waiter *w = __real_nsync_waiter_new_ ();
 			int u, k;
 			id_of (w);
 			for (u = 0; u < S.n; u++) for (k = 0; k < S.nheld[u]; k++) if (S.held[u][k] == w)
 				rt_violation ("O-excl", "nsync_waiter_new_ gave thread %d the waiter that thread %d is still using", t + 1, u + 1);
+			for (u = 0; u < S.n; u++) if (u != t && rt_tls_waiter (u) == (void *) w)
+				rt_violation ("O-excl", "nsync_waiter_new_ gave thread %d the waiter that is reserved as thread %d's own", t + 1, u + 1);
 			if ((w->flags & WAITER_IN_USE) == 0) rt_violation ("O-excl", "nsync_waiter_new_ returned a waiter not marked in use");
 			S.held[t][S.nheld[t]++] = w;
 		} else if (S.nheld[t] > 0) {
@@ -77,11 +82,15 @@ static void setup (const char *init) {
 		if (*p == ';') t++;
 		else if (*p == 'n') S.prog[t][S.nops[t]++] = 1;
 		else if (*p == 'f') S.prog[t][S.nops[t]++] = 2;
+		else if (*p == 'x' || *p == 'e') S.prog[t][S.nops[t]++] = 3;
 	}
 	S.n = t + 1;
 	p = strstr (cur_init, "MaxW="); S.maxw = p ? atoi (p + 5) : 4;
 	nsync_malloc_ptr_ = pool_malloc;
 	{ static void *a_spin, *a_free; if (!a_spin) { a_spin = rt_data_sym ("free_waiters_mu"); a_free = rt_data_sym ("free_waiters"); } S.spin = a_spin; S.freeq = a_free; }
+	/* the thread-local flavour of common.c keeps the thread's waiter in waiter_for_thread (an ordinary static in this build: tools/vbuild.py
+	   flavour ctls): one value per fiber */
+	{ static void **a_tls; static int looked; if (!looked) { a_tls = rt_data_sym ("waiter_for_thread"); looked = 1; } rt_fiber_word = a_tls; if (a_tls) *a_tls = NULL; }
 	if (!S.spin || !S.freeq) { fprintf (stderr, "h_pool: free_waiters / free_waiters_mu not found in the symbol table\n"); exit (2); }
 	rt_hb_track (S.freeq, sizeof *S.freeq);     /* the list head is a static of common.c: part of what the spinlock must order (C03) */
 	for (i = 0; i < S.n; i++) rt_spawn (client, (void *) (long) i);
@@ -182,6 +191,7 @@ int main (int argc, char **argv) {
 	memset (&st, 0, sizeof st);
 	f = fopen (argv[2], "r");
 	if (!f) { perror (argv[2]); return 2; }
+	if (!strcmp (argv[1], "pb") && argc >= 5) return rp_explore_pb (f, &h, atoi (argv[3]), atol (argv[4]), argc > 5 ? argv[5] : NULL, getenv ("VERIF_PROP") ? getenv ("VERIF_PROP") : "C02", NULL, 20000) ? 1 : 0;
 	if (!strcmp (argv[1], "from") && argc >= 5) return rp_explore_from (f, &h, atol (argv[3]), (unsigned) atol (argv[4]), argc > 5 ? argv[5] : NULL, "C02", NULL, 20000) ? 1 : 0;
 	rp_run (f, &h, &st, argc > 3 ? argv[3] : NULL, getenv ("VERIF_PROP") ? getenv ("VERIF_PROP") : "C02");
 	rp_print_stats (&st, stdout);
